@@ -264,4 +264,64 @@ def run (s : State) (ops : List Op) : State := ops.foldl (fun st op => (step st 
 
 end Lease
 
+/-! ## PoolAllocator (pkg/allocator/store.go) over a MemoryAllocationStore shared with other pools
+
+  The bitmap allocator plus the store's record per subscriber — the session-mode wrapper with the store
+  write failing when the fault flag says so OR when the store's by-IP index already records the prefix for
+  somebody else (`foreign`: prefixes recorded by other pools sharing the store, ErrConflict). -/
+namespace Pool
+
+structure State where
+  s       : Session.State
+  foreign : List Nat
+  deriving Repr
+
+def init (c : Bitmap.Cfg) : State := { s := Session.init c, foreign := [] }
+
+/-- SaveAllocation's conflict check for the prefix Allocate is about to hand out -/
+def conflictFor (st : State) (k : Nat) : Bool :=
+  match Bitmap.alloc st.s.a k with
+  | (_, .okAddr a) => st.foreign.contains a
+  | _ => false
+
+/-- AllocateWithOptions -/
+def alloc (st : State) (k : Nat) (saveFails : Bool) : State × Obs :=
+  let r := Session.alloc st.s k (saveFails || conflictFor st k)
+  ({ st with s := r.1 }, r.2)
+
+/-- Release -/
+def release (st : State) (k : Nat) (removeFails : Bool) : State × Obs :=
+  let r := Session.release st.s k removeFails
+  ({ st with s := r.1 }, r.2)
+
+/-- another pool records `addr` in the shared store: refused when this pool's record already names it -/
+def foreign (st : State) (addr : Nat) : State × Obs :=
+  if st.s.store.any (fun p => p.2.addr == addr) then (st, .error)
+  else ({ st with foreign := if st.foreign.contains addr then st.foreign else addr :: st.foreign }, .ok)
+
+def unforeign (st : State) (addr : Nat) : State := { st with foreign := st.foreign.filter (· != addr) }
+
+inductive Op where
+  | alloc (k : Nat) (f : Bool)
+  | release (k : Nat) (f : Bool)
+  | lookup (k : Nat)
+  | stats
+  | foreign (addr : Nat)
+  | unforeign (addr : Nat)
+  | rtstore            -- MemoryAllocationStore Marshal/Unmarshal: the three indexes are rebuilt from the records
+  deriving Repr, DecidableEq
+
+def step (st : State) : Op → State × Obs
+  | .alloc k f => alloc st k f
+  | .release k f => release st k f
+  | .lookup k => (st, Session.get st.s k)
+  | .stats => (st, Session.stats st.s)
+  | .foreign a => foreign st a
+  | .unforeign a => (unforeign st a, .ok)
+  | .rtstore => (st, .ok)
+
+def run (st : State) (ops : List Op) : State := ops.foldl (fun s op => (step s op).1) st
+
+end Pool
+
 end Bng.Dist
